@@ -166,7 +166,7 @@ def simple_for_twins(s):
     return True
 
 
-def mon_C08(s, k=3):
+def mon_C08(s, k=4):
     if not s["ops"] or s["ops"][0]["op"] != "init" or not is_acyclic(s) or not simple_for_twins(s):
         return []
     defn, lang, inputs = s["def"], s["lang"], s["ops"][0].get("inputs") or {}
